@@ -12,6 +12,12 @@ theorem data_length {v : Nat} {b : Buf} (hb : BInv v b) : b.data.length = b.e - 
   obtain ⟨st, s, e, cap⟩ := b
   cases st <;> simp only [BInv] at hb <;> simp only [Buf.data, Store.mem, rd_length] <;> grind
 
+/-- `operator!=`: `size != other.size || Memory::compare(other.bufferStart, bufferStart, size) != 0` -/
+def notEqualBufs (st : State) (v w : Nat) : Option Bool := do
+  let a ← contents st v
+  let b ← contents st w
+  pure (a.length != b.length || a != b)
+
 /-! ### per method -/
 
 theorem free_cap {v : Nat} {b : Buf} {L : Ledger} (hL : LiveIn b L) (hbd : Bounded L) :
@@ -241,10 +247,44 @@ theorem upd_cap {st st' : State} {v : Nat} {f : Buf → M Buf} {N R : Nat} (hi :
 
 theorem bytesOf_length (d : List Nat) : (bytesOf d).length = d.length := by simp [bytesOf]
 
-/-- one operation: no capacity exceeds the previous bound, the size the operation requests (byte-queue view) and the
-    capacity wish of the environment -/
-theorem step_cap {st st' : State} {qs : List Spec.Queue} {N k : Nat} {op : Op} (hi : Inv st) (hr : Rel qs st)
-    (h : step st k op = some st') (hN : CapLe N st) : CapLe (max N (max (Spec.demand qs op) k)) st' := by
+/-- the first variable an operation works on -/
+def Op.target : Op → Nat
+  | .ctorDefault v | .ctorCap v _ | .ctorData v _ | .ctorCopy v _ | .attach v _ _ _ | .assignBuf v _ | .assignData v _
+  | .prependData v _ | .prependBuf v _ | .prependSub v _ _ | .appendSub v _ _ | .assignSub v _ _ | .appendData v _
+  | .appendBuf v _ | .resize v _ | .removeFront v _ | .removeBack v _ | .reserve v _ | .clear v | .swap v _ | .free v => v
+
+/-- per variable: a method of `v` changes no other variable, and `v`'s capacity grows at most to `R` -/
+abbrev PerVar (v R : Nat) (st st' : State) : Prop :=
+  ∀ (u : Nat) (b' : Buf), st'.bufs[u]? = some b' → ∃ b, st.bufs[u]? = some b ∧ b'.cap ≤ max b.cap (if v = u then R else 0) ∧
+    (v ≠ u → b' = b)
+
+theorem PerVar.capLe {v R N : Nat} {st st' : State} (h : PerVar v R st st') (hN : CapLe N st) : CapLe (max N R) st' := by
+  intro u b' hb'
+  obtain ⟨b, hb, hc, _⟩ := h u b' hb'
+  have := hN u b hb
+  split at hc <;> omega
+
+theorem upd_cap_var {st st' : State} {v : Nat} {f : Buf → M Buf} {R : Nat} (hi : Inv st) (h : st.upd v f = some st')
+    (hf : ∀ b, st.bufs[v]? = some b → BInv v b → LiveIn b st.led → Bounded st.led →
+      OkM (f b) st.led (fun b' _ => b'.cap ≤ max b.cap R)) :
+    PerVar v R st st' := by
+  obtain ⟨b, b', L', hb, hfb, rfl⟩ := upd_elim h
+  have hv : v < st.bufs.length := (List.getElem?_eq_some_iff.1 hb).1
+  have hc := (okM_of_some hfb _).1 (hf b hb (hi.1 v b hb) (liveIn_of_inv hi hb) hi.2.bounded)
+  intro u bu hu
+  rw [getElem?_setBL _ _ _ _ _ hv] at hu
+  by_cases huv : v = u
+  · simp only [huv, if_true, Option.some.injEq] at hu
+    subst hu
+    exact ⟨b, huv ▸ hb, by simp only [huv, if_true]; exact hc, fun hne => absurd huv hne⟩
+  · simp only [huv, if_false] at hu
+    exact ⟨bu, hu, by omega, fun _ => rfl⟩
+
+/-- one operation other than `swap`, per variable: only the target variable changes, and its capacity grows at most to
+    the size the operation requests (byte-queue view) or the capacity wish of the environment -/
+theorem step_cap_var {st st' : State} {qs : List Spec.Queue} {k : Nat} {op : Op} (hi : Inv st) (hr : Rel qs st)
+    (h : step st k op = some st') (hns : ∀ a b, op ≠ .swap a b) (tv : Nat) (htv : op.target = tv) :
+    PerVar tv (max (Spec.demand qs op) k) st st' := by
   have len_of : ∀ {u : Nat} {b : Buf}, st.bufs[u]? = some b → (Spec.get qs u).length = b.e - b.s := by
     intro u b hb
     rw [(hr.2 u b hb).length, data_length (hi.1 u b hb)]
@@ -252,26 +292,31 @@ theorem step_cap {st st' : State} {qs : List Spec.Queue} {N k : Nat} {op : Op} (
     fun hb => data_length (hi.1 _ _ hb)
   cases op with
   | ctorDefault v =>
-    exact upd_cap hi h hN (fun b hb hbi hl hbd => (free_cap (v := v) hl hbd).mono (fun b' _ hc => by omega))
+    simp only [Op.target] at htv; subst htv
+    exact upd_cap_var hi h (fun b hb hbi hl hbd => (free_cap (v := v) hl hbd).mono (fun b' _ hc => by omega))
   | ctorCap v n =>
-    exact upd_cap hi h hN (fun b hb hbi hl hbd => (ctorCap_cap n k hl hbd).mono (fun b' _ hc => by
+    simp only [Op.target] at htv; subst htv
+    exact upd_cap_var hi h (fun b hb hbi hl hbd => (ctorCap_cap n k hl hbd).mono (fun b' _ hc => by
       simp only [Spec.demand]; omega))
   | ctorData v d =>
-    exact upd_cap hi h hN (fun b hb hbi hl hbd => (ctorData_cap (bytesOf d) k hl hbd).mono (fun b' _ hc => by
+    simp only [Op.target] at htv; subst htv
+    exact upd_cap_var hi h (fun b hb hbi hl hbd => (ctorData_cap (bytesOf d) k hl hbd).mono (fun b' _ hc => by
       simp only [Spec.demand]; rw [bytesOf_length] at hc; omega))
   | ctorCopy v w =>
+    simp only [Op.target] at htv; subst htv
     simp only [step] at h
     by_cases hvw : v = w
     · subst hvw
       simp only [if_true] at h
-      exact upd_cap hi h hN (fun b hb hbi hl hbd => (okM_pure _ _ _).2 (by omega))
+      exact upd_cap_var hi h (fun b hb hbi hl hbd => (okM_pure _ _ _).2 (by omega))
     · simp only [hvw, if_false] at h
       obtain ⟨bw, hbw, h⟩ := updFrom_elim hi h
       have := len_of hbw
       have := dlen_of hbw
-      exact upd_cap hi h hN (fun b hb hbi hl hbd => (ctorData_cap bw.data k hl hbd).mono (fun b' _ hc => by
+      exact upd_cap_var hi h (fun b hb hbi hl hbd => (ctorData_cap bw.data k hl hbd).mono (fun b' _ hc => by
         simp only [Spec.demand, hvw, if_false]; omega))
   | attach v r off len =>
+    simp only [Op.target] at htv; subst htv
     simp only [step] at h
     cases hreg : st.regs[r]? with
     | none => simp [hreg] at h
@@ -280,90 +325,115 @@ theorem step_cap {st st' : State} {qs : List Spec.Queue} {N k : Nat} {op : Op} (
       | none => simp [hreg, hrd] at h
       | some range =>
         simp [hreg, hrd] at h
-        exact upd_cap hi h hN (fun b hb hbi hl hbd => (attach_cap range hl hbd).mono (fun b' _ hc => by omega))
+        exact upd_cap_var hi h (fun b hb hbi hl hbd => (attach_cap range hl hbd).mono (fun b' _ hc => by omega))
   | assignBuf v w =>
+    simp only [Op.target] at htv; subst htv
     simp only [step] at h
     by_cases hvw : v = w
     · subst hvw
       simp only [if_true] at h
-      exact upd_cap hi h hN (fun b hb hbi hl hbd => (assignSelf_cap hbi hl hbd k).mono (fun b' _ hc => by
+      exact upd_cap_var hi h (fun b hb hbi hl hbd => (assignSelf_cap hbi hl hbd k).mono (fun b' _ hc => by
         have := len_of hb
         simp only [Spec.demand]; omega))
     · simp only [hvw, if_false] at h
       obtain ⟨bw, hbw, h⟩ := updFrom_elim hi h
       have := len_of hbw
       have := dlen_of hbw
-      exact upd_cap hi h hN (fun b hb hbi hl hbd => (assign_cap hbi hl hbd bw.data k).mono (fun b' _ hc => by
+      exact upd_cap_var hi h (fun b hb hbi hl hbd => (assign_cap hbi hl hbd bw.data k).mono (fun b' _ hc => by
         simp only [Spec.demand]; omega))
   | assignData v d =>
-    exact upd_cap hi h hN (fun b hb hbi hl hbd => (assign_cap hbi hl hbd (bytesOf d) k).mono (fun b' _ hc => by
+    simp only [Op.target] at htv; subst htv
+    exact upd_cap_var hi h (fun b hb hbi hl hbd => (assign_cap hbi hl hbd (bytesOf d) k).mono (fun b' _ hc => by
       simp only [Spec.demand]; rw [bytesOf_length] at hc; omega))
   | prependData v d =>
-    exact upd_cap hi h hN (fun b hb hbi hl hbd => (prepend_cap hbi hl hbd (bytesOf d) k).mono (fun b' _ hc => by
+    simp only [Op.target] at htv; subst htv
+    exact upd_cap_var hi h (fun b hb hbi hl hbd => (prepend_cap hbi hl hbd (bytesOf d) k).mono (fun b' _ hc => by
       have := len_of hb
       simp only [Spec.demand]; rw [bytesOf_length] at hc; omega))
   | prependBuf v w =>
+    simp only [Op.target] at htv; subst htv
     simp only [step] at h
     by_cases hvw : v = w
     · subst hvw
       simp only [if_true] at h
-      exact upd_cap hi h hN (fun b hb hbi hl hbd => (prependSelf_cap hbi hl hbd k).mono (fun b' _ hc => by
+      exact upd_cap_var hi h (fun b hb hbi hl hbd => (prependSelf_cap hbi hl hbd k).mono (fun b' _ hc => by
         have := len_of hb
         simp only [Spec.demand]; omega))
     · simp only [hvw, if_false] at h
       obtain ⟨bw, hbw, h⟩ := updFrom_elim hi h
       have := len_of hbw
       have := dlen_of hbw
-      exact upd_cap hi h hN (fun b hb hbi hl hbd => (prepend_cap hbi hl hbd bw.data k).mono (fun b' _ hc => by
+      exact upd_cap_var hi h (fun b hb hbi hl hbd => (prepend_cap hbi hl hbd bw.data k).mono (fun b' _ hc => by
         have := len_of hb
         simp only [Spec.demand]; omega))
   | prependSub v off len =>
-    exact upd_cap hi h hN (fun b hb hbi hl hbd => (prependSubClamped_cap hbi hl hbd off len k).mono (fun b' _ hc => by
+    simp only [Op.target] at htv; subst htv
+    exact upd_cap_var hi h (fun b hb hbi hl hbd => (prependSubClamped_cap hbi hl hbd off len k).mono (fun b' _ hc => by
       have h1 := (hr.2 v b hb).length
       have h2 := (((hr.2 v b hb).drop off).take len).length
       simp only [Spec.demand]; omega))
   | appendSub v off len =>
-    exact upd_cap hi h hN (fun b hb hbi hl hbd => (appendSubClamped_cap hbi hl hbd off len k).mono (fun b' _ hc => by
+    simp only [Op.target] at htv; subst htv
+    exact upd_cap_var hi h (fun b hb hbi hl hbd => (appendSubClamped_cap hbi hl hbd off len k).mono (fun b' _ hc => by
       have h1 := (hr.2 v b hb).length
       have h2 := (((hr.2 v b hb).drop off).take len).length
       simp only [Spec.demand]; omega))
   | assignSub v off len =>
-    exact upd_cap hi h hN (fun b hb hbi hl hbd => (assignSubClamped_cap hbi hl hbd off len k).mono (fun b' _ hc => by
+    simp only [Op.target] at htv; subst htv
+    exact upd_cap_var hi h (fun b hb hbi hl hbd => (assignSubClamped_cap hbi hl hbd off len k).mono (fun b' _ hc => by
       have h2 := (((hr.2 v b hb).drop off).take len).length
       simp only [Spec.demand]; omega))
   | appendData v d =>
-    exact upd_cap hi h hN (fun b hb hbi hl hbd => (append_cap hbi hl hbd (bytesOf d) k).mono (fun b' _ hc => by
+    simp only [Op.target] at htv; subst htv
+    exact upd_cap_var hi h (fun b hb hbi hl hbd => (append_cap hbi hl hbd (bytesOf d) k).mono (fun b' _ hc => by
       have := len_of hb
       simp only [Spec.demand]; rw [bytesOf_length] at hc; omega))
   | appendBuf v w =>
+    simp only [Op.target] at htv; subst htv
     simp only [step] at h
     by_cases hvw : v = w
     · subst hvw
       simp only [if_true] at h
-      exact upd_cap hi h hN (fun b hb hbi hl hbd => (appendSelf_cap hbi hl hbd k).mono (fun b' _ hc => by
+      exact upd_cap_var hi h (fun b hb hbi hl hbd => (appendSelf_cap hbi hl hbd k).mono (fun b' _ hc => by
         have := len_of hb
         simp only [Spec.demand]; omega))
     · simp only [hvw, if_false] at h
       obtain ⟨bw, hbw, h⟩ := updFrom_elim hi h
       have := len_of hbw
       have := dlen_of hbw
-      exact upd_cap hi h hN (fun b hb hbi hl hbd => (append_cap hbi hl hbd bw.data k).mono (fun b' _ hc => by
+      exact upd_cap_var hi h (fun b hb hbi hl hbd => (append_cap hbi hl hbd bw.data k).mono (fun b' _ hc => by
         have := len_of hb
         simp only [Spec.demand]; omega))
   | resize v n =>
-    exact upd_cap hi h hN (fun b hb hbi hl hbd => (resize_cap hbi hl hbd n k).mono (fun b' _ hc => by
+    simp only [Op.target] at htv; subst htv
+    exact upd_cap_var hi h (fun b hb hbi hl hbd => (resize_cap hbi hl hbd n k).mono (fun b' _ hc => by
       simp only [Spec.demand]; omega))
   | removeFront v n =>
-    exact upd_cap hi h hN (fun b hb hbi hl hbd => (removeFront_cap hbi hl hbd n).mono (fun b' _ hc => by omega))
+    simp only [Op.target] at htv; subst htv
+    exact upd_cap_var hi h (fun b hb hbi hl hbd => (removeFront_cap hbi hl hbd n).mono (fun b' _ hc => by omega))
   | removeBack v n =>
-    exact upd_cap hi h hN (fun b hb hbi hl hbd => (removeBack_cap hbi hl hbd n).mono (fun b' _ hc => by omega))
+    simp only [Op.target] at htv; subst htv
+    exact upd_cap_var hi h (fun b hb hbi hl hbd => (removeBack_cap hbi hl hbd n).mono (fun b' _ hc => by omega))
   | reserve v n =>
-    exact upd_cap hi h hN (fun b hb hbi hl hbd => (reserve_cap hbi hl hbd n k).mono (fun b' _ hc => by
+    simp only [Op.target] at htv; subst htv
+    exact upd_cap_var hi h (fun b hb hbi hl hbd => (reserve_cap hbi hl hbd n k).mono (fun b' _ hc => by
       have := len_of hb
       simp only [Spec.demand]; omega))
   | clear v =>
-    exact upd_cap hi h hN (fun b hb hbi hl hbd => (clear_cap hbi hl hbd).mono (fun b' _ hc => by omega))
-  | swap v w =>
+    simp only [Op.target] at htv; subst htv
+    exact upd_cap_var hi h (fun b hb hbi hl hbd => (clear_cap hbi hl hbd).mono (fun b' _ hc => by omega))
+  | swap v w => exact absurd rfl (hns v w)
+  | free v =>
+    simp only [Op.target] at htv; subst htv
+    exact upd_cap_var hi h (fun b hb hbi hl hbd => (free_cap (v := v) hl hbd).mono (fun b' _ hc => by omega))
+
+
+/-- one operation: no capacity exceeds the previous bound, the size the operation requests (byte-queue view) and the
+    capacity wish of the environment -/
+theorem step_cap {st st' : State} {qs : List Spec.Queue} {N k : Nat} {op : Op} (hi : Inv st) (hr : Rel qs st)
+    (h : step st k op = some st') (hN : CapLe N st) : CapLe (max N (max (Spec.demand qs op) k)) st' := by
+  by_cases hs : ∃ a b, op = .swap a b
+  · obtain ⟨v, w, rfl⟩ := hs
     simp only [step, State.getBuf] at h
     cases hbv : st.bufs[v]? with
     | none => simp [hbv] at h
@@ -387,8 +457,8 @@ theorem step_cap {st st' : State} {qs : List Spec.Queue} {N k : Nat} {op : Op} (
             · cases hu
           · have := hN u bu hu
             omega
-  | free v =>
-    exact upd_cap hi h hN (fun b hb hbi hl hbd => (free_cap (v := v) hl hbd).mono (fun b' _ hc => by omega))
+
+  · exact (step_cap_var hi hr h (fun a b he => hs ⟨a, b, he⟩) _ rfl).capLe hN
 
 /-- histories: every capacity is bounded by the largest size requested / capacity wished for along the history -/
 theorem run_cap : ∀ (ops : List (Op × Nat)) {st st' : State} {qs : List Spec.Queue} {N : Nat}, Inv st → Rel qs st →
